@@ -11,7 +11,7 @@ VARIABLES l, tid, fs, st, produced
 vars == <<l, tid, fs, st, produced>>
 Trace == ndJsonDeserialize("trace.ndjson")
 
-Chk(c, prop, aspect, detail) == IF c THEN TRUE ELSE PrintT(<<"VIOL", tid, Trace[l].i, prop, aspect, detail>>)
+Chk(c, prop, aspect, detail) == IF c THEN TRUE ELSE PrintT(<<"VIOL", tid, (IF "i" \in DOMAIN Trace[l] THEN Trace[l].i ELSE 0), prop, aspect, detail>>)
 
 NoStart == [mode |-> "none", target |-> "", existed |-> 0, oldLen |-> 0, newLen |-> 0, outdir |-> <<>>, nboards |-> 0]
 
